@@ -6,6 +6,8 @@ use tokio::net::{TcpListener, TcpStream};
 use tracing::{info, warn};
 
 const MAX_FRAME_LEN: usize = 64 * 1024;
+/// Scratch size used to skip the body of a refused frame without buffering it.
+const DISCARD_CHUNK: usize = 4096;
 
 pub async fn start_client_listener(
     controller: Arc<NodeController>,
@@ -39,6 +41,9 @@ async fn handle_connection(mut socket: TcpStream, controller: Arc<NodeController
         let frame_len = u32::from_le_bytes(len_buf) as usize;
         if frame_len == 0 || frame_len > MAX_FRAME_LEN {
             send_response(&mut socket, "ERR invalid frame length").await?;
+            // The peer still sends the body it announced: skip it, otherwise those
+            // bytes would be parsed (and executed) as further frames.
+            discard_exact(&mut socket, frame_len).await?;
             continue;
         }
 
@@ -59,6 +64,17 @@ async fn handle_connection(mut socket: TcpStream, controller: Arc<NodeController
 
         send_response(&mut socket, &response).await?;
     }
+}
+
+/// Reads and drops exactly `remaining` bytes in bounded chunks.
+async fn discard_exact(socket: &mut TcpStream, mut remaining: usize) -> Result<()> {
+    let mut scratch = [0u8; DISCARD_CHUNK];
+    while remaining > 0 {
+        let n = remaining.min(DISCARD_CHUNK);
+        socket.read_exact(&mut scratch[..n]).await?;
+        remaining -= n;
+    }
+    Ok(())
 }
 
 async fn handle_command(line: &str, controller: Arc<NodeController>) -> Result<String> {
